@@ -10,7 +10,9 @@
 From Coq Require Import List ZArith NArith Bool Arith String.
 Import ListNotations.
 From DD Require Import Base.PyStr Base.Value Path.PathModel Diff.Tree Diff.DiffModel Diff.TextView
-  Views.ViewsModel Views.ViewsChains Views.ViewsProofs Hash.HashModel DiffIO.DiffIOModel Views.ViewsIO Views.ViewsIOChains.
+  Views.ViewsModel Views.ViewsChains Views.ViewsProofs Hash.HashModel DiffIO.DiffIOModel Views.ViewsIO Views.ViewsIOChains
+  Views.ViewsRep Delta.DeltaModel Delta.DeltaIO Views.ViewsDelta Views.ViewsDeltaProofs
+  Views.ViewsJsonMap Views.ViewsJsonMapProofs Views.ViewsLevel Views.ViewsLevelProofs.
 
 (* ---- tree view vs text view ---------------------------------------- *)
 
@@ -251,3 +253,315 @@ Theorem C10_json_full_same_keys :
          forall p, In p (jmembers payload) <-> exists t, In t reps /\ trpath t = p).
 Proof. exact json_full_same_keys. Qed.
 Print Assumptions C10_json_full_same_keys.
+
+(* ==================================================================== *)
+(* round 3                                                               *)
+(* ==================================================================== *)
+
+(* ---- ignore_order + report_repetition WITHOUT the guard norep ---------- *)
+
+(* every level of every run (every pairing oracle, hasher, skip/excl, cfg) has
+   TRUE key sequences q1, q2 backed by the inputs: all nodes above the leaf exist
+   in both inputs and the leaf objects are the sub-objects named by q1 / q2.
+   They differ from the reported ones at list indexes only ([ksim]: same
+   length, same dict keys), and on the t1 side every differing index names an
+   item of the same list with the same hash ([hsim]) *)
+Theorem C10_io_repetition_backed :
+  forall H udiff skip excl c pairs t1 t2,
+    wf t1 = true -> wf t2 = true ->
+    forall e, In e (fst (run_diff_io H udiff skip excl c true pairs t1 t2)) ->
+      exists q1 q2, hsim H c t1 q1 (ep1 e) /\ ksim q2 (ep2 e) /\
+        chain_ok t1 t2 (repath e q1 q2) /\ leaf_ok t1 t2 (repath e q1 q2).
+Proof. exact run_io_rep_backed. Qed.
+Print Assumptions C10_io_repetition_backed.
+
+(* the [repetition] record of each repetition_change level, pairwise and in
+   order with the levels: old_indexes / new_indexes are exactly the positions
+   of the items carrying the level's hash in the two lists (at the true parent
+   paths), both non-empty and of different length; the level sits at t1's first
+   index and shows the first items *)
+Theorem C10_io_repetition_payload :
+  forall H udiff skip excl c pairs t1 t2,
+    wf t1 = true -> wf t2 = true ->
+    Forall2 (rep_rec_ok H c t1 t2)
+      (filter is_rep (fst (run_diff_io H udiff skip excl c true pairs t1 t2)))
+      (snd (run_diff_io H udiff skip excl c true pairs t1 t2)).
+Proof. exact run_io_rep_payload. Qed.
+Print Assumptions C10_io_repetition_payload.
+
+(* t1 side exact when equal hashes of sibling items mean equal items ([sibinj];
+   true of a collision-free hasher): the REPORTED t1-side key sequence is backed *)
+Theorem C10_io_repetition_t1_exact :
+  forall H udiff skip excl c pairs t1 t2,
+    wf t1 = true -> wf t2 = true -> sibinj H c t1 = true ->
+    forall e, In e (fst (run_diff_io H udiff skip excl c true pairs t1 t2)) ->
+      exists q2, ksim q2 (ep2 e) /\
+        chain_ok t1 t2 (repath e (ep1 e) q2) /\ leaf_ok t1 t2 (repath e (ep1 e) q2).
+Proof. exact run_io_rep_t1_exact. Qed.
+Print Assumptions C10_io_repetition_t1_exact.
+
+(* ... and false without it: a hasher sending everything to one hash *)
+Theorem C10_io_repetition_t1_refuted :
+  exists e, In e (fst (run_diff_io (fun _ => []) (fun _ _ => []) (fun _ => false) (fun _ => false)
+                         (mkCfg false 33 100 true) true (fun _ => [])
+                         (VList [VAtom (AInt 1); VAtom (AInt 2)]) (VList []))) /\
+            ekind e = KIterRem /\ et1 e = Some (VAtom (AInt 1)) /\
+            resolve (VList [VAtom (AInt 1); VAtom (AInt 2)]) (ep1 e) = Some (VAtom (AInt 2)).
+Proof. exact rep_t1_refuted. Qed.
+Print Assumptions C10_io_repetition_t1_refuted.
+
+(* both sides exact under [aligned] (no list of t2 holds a hash twice; a hash
+   common to two compared lists occurs once in t1's list; repeated REMOVED items
+   are allowed) and [sibinj]: the statement of C10_io_repetition_chains_partial
+   under a weaker guard ([norep] implies both) *)
+Theorem C10_io_repetition_chains_aligned :
+  forall H udiff skip excl c pairs t1 t2,
+    wf t1 = true -> wf t2 = true -> aligned H c t1 t2 = true -> sibinj H c t1 = true ->
+    forall e, In e (fst (run_diff_io H udiff skip excl c true pairs t1 t2)) ->
+      chain_ok t1 t2 e /\ leaf_ok t1 t2 e.
+Proof. exact run_io_rep_exact. Qed.
+Print Assumptions C10_io_repetition_chains_aligned.
+
+Theorem C10_norep_implies_aligned :
+  forall H c t1 t2, norep H c true t1 = true -> norep H c true t2 = true ->
+    aligned H c t1 t2 = true /\ sibinj H c t1 = true.
+Proof. intros. split; [apply norep_aligned; assumption|apply norep_sibinj; assumption]. Qed.
+Print Assumptions C10_norep_implies_aligned.
+
+(* hence the text view of EVERY report_repetition run is the documented
+   projection of its tree, no guard *)
+Theorem C10_io_repetition_text_is_projection :
+  forall H udiff skip excl c pairs verbose t1 t2,
+    wf t1 = true -> wf t2 = true ->
+    Forall2 (describes verbose)
+            (filter (visible verbose) (fst (run_diff_io H udiff skip excl c true pairs t1 t2)))
+            (text_view verbose (fst (run_diff_io H udiff skip excl c true pairs t1 t2))).
+Proof. exact run_io_rep_text_projection. Qed.
+Print Assumptions C10_io_repetition_text_is_projection.
+
+(* ---- the delta view ---------------------------------------------------- *)
+
+(* on a stored tree every view - text, tree, delta - is what a fresh run with
+   that view shows, whatever the object's own view; the delta view IS
+   to_delta / to_delta_io (Delta block) of the tree view, directed *)
+Theorem C10_to_dict_override_delta :
+  forall conv ops x own ov verbose raw,
+    let tree := if c_rep x then raw else mutual raw in
+    to_dict3 conv ops x own ov verbose tree =
+    direct_view3 conv ops x (match ov with Some v => v | None => own end) verbose tree.
+Proof. exact to_dict3_override. Qed.
+Print Assumptions C10_to_dict_override_delta.
+
+(* the delta view carries the same changes as the (verbose-2) text view: the
+   i-th values_changed entries have the same path (printed there, parsed here)
+   and the same new value, new_path on both or on neither; no old value *)
+Theorem C10_delta_text_values :
+  forall conv ops t1 t2 rec es, Forall shape_ok es ->
+    Forall2 (fun t c => exists ks ks2, tpath t = render ks /\ vc_path c = norm ks /\ tnew t = Some (vc_new c) /\
+                          ((tnewpath t = None /\ vc_new_path c = None) \/
+                           (tnewpath t = Some (render ks2) /\ vc_new_path c = Some (norm ks2))))
+            (in_cat CValue (text_view 2 es)) (d_val (to_delta conv false false ops t1 t2 es rec)) /\
+    Forall (fun c => vc_old c = None) (d_val (to_delta conv false false ops t1 t2 es rec)).
+Proof.
+  intros. split; [apply delta_text_values; assumption|].
+  pose proof (delta_val conv ops t1 t2 rec es) as F. induction F as [|e c l l' (_ & _ & O & _) _ IH]; constructor; assumption.
+Qed.
+Print Assumptions C10_delta_text_values.
+
+Theorem C10_delta_text_types :
+  forall conv ops t1 t2 rec es, Forall shape_ok es ->
+    Forall2 (fun t c => exists ks, tpath t = render ks /\ tc_path c = norm ks /\
+                          ttypes t = Some (tc_old_ty c, tc_new_ty c) /\
+                          (tc_new c = None \/ tc_new c = tnew t))
+            (in_cat CType (text_view 2 es)) (d_type (to_delta conv false false ops t1 t2 es rec)).
+Proof. exact delta_text_types. Qed.
+Print Assumptions C10_delta_text_types.
+
+(* ... the values of a type change are omitted exactly when new_type(old_value) == new_value *)
+Theorem C10_delta_type_values :
+  forall conv ops t1 t2 rec es,
+    Forall2 (dt_ok conv) (filter (is_kind KType) es) (d_type (to_delta conv false false ops t1 t2 es rec)).
+Proof. exact delta_type. Qed.
+Print Assumptions C10_delta_type_values.
+
+Theorem C10_delta_text_dict_items :
+  forall conv ops t1 t2 rec es, Forall shape_ok es ->
+    Forall2 (fun t pv => exists ks, tpath t = render ks /\ fst pv = norm ks /\ tnew t = Some (snd pv))
+            (in_cat CDictAdd (text_view 2 es)) (d_dadd (to_delta conv false false ops t1 t2 es rec)) /\
+    Forall2 (fun t pv => exists ks, tpath t = render ks /\ fst pv = norm ks /\ told t = Some (snd pv))
+            (in_cat CDictRem (text_view 2 es)) (d_drem (to_delta conv false false ops t1 t2 es rec)).
+Proof. intros. split; [apply delta_text_dadd|apply delta_text_drem]; assumption. Qed.
+Print Assumptions C10_delta_text_dict_items.
+
+(* iterable items: the levels whose list has no recorded opcodes, in order (the
+   text view shows all of them: [text_cat]); set items: grouped per set *)
+Theorem C10_delta_iterable_items :
+  forall conv ops t1 t2 rec es,
+    Forall2 pv2 (filter (fun e => is_kind KIterAdd e && by_items rec e) es) (d_iadd (to_delta conv false false ops t1 t2 es rec)) /\
+    Forall2 pv1 (filter (fun e => is_kind KIterRem e && by_items rec e) es) (d_irem (to_delta conv false false ops t1 t2 es rec)) /\
+    map fst (d_ops (to_delta conv false false ops t1 t2 es rec)) = map norm rec.
+Proof. intros. split; [apply delta_iadd|split; [apply delta_irem|apply delta_ops_paths]]. Qed.
+Print Assumptions C10_delta_iterable_items.
+
+Theorem C10_text_category_is_projection :
+  forall verbose k c es, kind_cat k = Some c -> Forall shape_ok es ->
+    Forall2 (describes verbose) (filter (fun e => is_kind k e && visible verbose e) es) (in_cat c (text_view verbose es)).
+Proof. exact text_cat. Qed.
+Print Assumptions C10_text_category_is_projection.
+
+Theorem C10_delta_set_items :
+  forall conv ops t1 t2 rec es p x,
+    (In x (set_members p (d_sadd (to_delta conv false false ops t1 t2 es rec))) <->
+     exists e, In e es /\ ekind e = KSetAdd /\ et2 e = Some (VAtom x) /\ norm (ep1 e) = p) /\
+    (In x (set_members p (d_srem (to_delta conv false false ops t1 t2 es rec))) <->
+     exists e, In e es /\ ekind e = KSetRem /\ et1 e = Some (VAtom x) /\ norm (ep1 e) = p).
+Proof. intros. split; [apply delta_sadd|apply delta_srem]. Qed.
+Print Assumptions C10_delta_set_items.
+
+(* ignore_order: the index maps hold exactly the removed levels / the added
+   levels and the new indexes of the repetition_change records *)
+Theorem C10_delta_io_index_maps :
+  forall conv t1 t2 es reps,
+    (forall p i v, imap_get (pmap_get (io_removed (to_delta_io conv false false t1 t2 es reps)) p) i = Some v ->
+       exists e, In e es /\ ekind e = KIterRem /\ norm (removelast (ep1 e)) = p /\ last_idx (ep1 e) = i /\ v = item_val e) /\
+    (forall e, In e es -> ekind e = KIterRem ->
+       imap_get (pmap_get (io_removed (to_delta_io conv false false t1 t2 es reps)) (norm (removelast (ep1 e)))) (last_idx (ep1 e)) <> None) /\
+    (forall p i v, imap_get (pmap_get (io_added (to_delta_io conv false false t1 t2 es reps)) p) i = Some v ->
+       (exists e, In e es /\ ekind e = KIterAdd /\ norm (removelast (ep1 e)) = p /\ last_idx (ep1 e) = i /\ v = item_val e) \/
+       (exists e r, In e es /\ ekind e = KRepetition /\ In r reps /\ rpath r = ep1 e /\
+                    norm (removelast (ep1 e)) = p /\ In i (rnew r) /\ v = oval (et1 e))).
+Proof.
+  intros. split; [intros; eapply io_removed_sound; eassumption|].
+  split; [intros; apply io_removed_complete; assumption|intros; eapply io_added_sound; eassumption].
+Qed.
+Print Assumptions C10_delta_io_index_maps.
+
+(* ---- to_json(default_mapping=...) --------------------------------------- *)
+
+(* without default_mapping (None or {}) the table-driven model is the model of
+   to_json() above: every theorem about to_json transfers *)
+Theorem C10_json_mapping_default :
+  forall iso n (dm : option table) rep verbose tree rs,
+    dm = None \/ dm = Some [] ->
+    to_json_m iso builtin dm (S (S n)) rep verbose tree rs = to_json_full rep verbose tree rs.
+Proof. exact to_json_m_default. Qed.
+Print Assumptions C10_json_mapping_default.
+
+(* for EVERY convertor table: when the call succeeds the categories are those of
+   the text view (+ repetition_change), the member names of every dict category
+   are the paths, and a list category is what the SetOrdered row makes of the
+   path list *)
+Theorem C10_json_mapping_same_keys :
+  forall iso t fuel verbose ts reps j,
+    json_with iso t fuel verbose ts reps = Some j ->
+    exists cats, j = JObj cats /\
+      (forall name, In name (map fst cats) <->
+         (exists x, In x ts /\ cat_name (tcat x) = name) \/ (name = rep_name /\ reps <> [])) /\
+      (forall c payload, In (cat_name c, payload) cats -> list_cat verbose c = false ->
+         forall p, In p (jmembers payload) <-> exists x, In x ts /\ tcat x = c /\ tpath x = p) /\
+      (forall c payload, In (cat_name c, payload) cats -> list_cat verbose c = true ->
+         hook iso t fuel (HOrdered (set_first [] (map tpath (in_cat c ts)))) = Some payload) /\
+      (forall payload, In (rep_name, payload) cats ->
+         forall p, In p (jmembers payload) <-> exists x, In x reps /\ trpath x = p).
+Proof. intros iso t fuel verbose ts reps j. unfold json_with. apply json_g_same_keys. Qed.
+Print Assumptions C10_json_mapping_same_keys.
+
+(* to_json / json_dumps is a function of its own arguments (tree, mapping): in
+   EVERY history of calls every result is the result of the same call on a fresh
+   interpreter, and the module-level table is never changed *)
+Theorem C10_json_history_independent :
+  forall iso fuel cs,
+    fst (run_calls iso convertor_default fuel builtin cs) = map (pure_call iso fuel) cs /\
+    snd (run_calls iso convertor_default fuel builtin cs) = builtin.
+Proof. intros. split; [apply run_calls_pure|apply run_calls_state]. Qed.
+Print Assumptions C10_json_history_independent.
+
+(* false of a json_convertor_default that updates the module-level table in
+   place (the seeded change C10-6): json_dumps([b'\xff']) raises on a fresh
+   interpreter but not after an unrelated json_dumps(None, default_mapping={bytes: hex}) *)
+Theorem C10_json_history_refuted_without_copy :
+  let iso := fun (_ : nat) (_ : hobj) => false in
+  fst (run_calls iso convertor_default_nocopy 3 builtin [CDumps None w_bytes]) = [None] /\
+  exists j, fst (run_calls iso convertor_default_nocopy 3 builtin
+                   [CDumps (Some w_hex_table) (VAtom ANone); CDumps None w_bytes]) = [Some JNull; Some j].
+Proof. exact nocopy_history_refuted. Qed.
+Print Assumptions C10_json_history_refuted_without_copy.
+
+(* ---- the DiffLevel chain ------------------------------------------------- *)
+
+(* up / down are inverse and stay on the same line *)
+Theorem C10_level_up_down :
+  forall l x, (down l = Some x -> up x = Some l /\ line x = line l) /\
+              (up l = Some x -> down x = Some l /\ line x = line l).
+Proof.
+  intros. split; intros E; split.
+  - apply up_down; exact E.
+  - apply down_line; exact E.
+  - apply down_up; exact E.
+  - apply up_line; exact E.
+Qed.
+Print Assumptions C10_level_up_down.
+
+(* all_up / all_down end at the two ends of one and the same line, in either order *)
+Theorem C10_level_all_up_all_down :
+  forall l, up (all_up l) = None /\ down (all_down l) = None /\
+            line (all_up l) = line l /\ line (all_down l) = line l /\
+            all_up (all_down l) = all_up l /\ all_down (all_up l) = all_down l.
+Proof.
+  intros. destruct (all_up_root l) as (_ & A & B). destruct (all_down_leaf l) as (_ & C & D).
+  repeat split; try assumption; [apply all_up_all_down|apply all_down_all_up].
+Qed.
+Print Assumptions C10_level_all_up_all_down.
+
+(* path(), both forms, both sides: the relationships of the objects above self
+   from the root, up to the first object without any relationship *)
+Theorem C10_level_path_is_chain :
+  forall use_t2 l,
+    path_list use_t2 l = map rel_param (rels use_t2 l) /\
+    path_str use_t2 l = Some (root_str ++ flat_map param_repr (rels use_t2 l))%list.
+Proof. intros. split; [apply path_list_rels|apply path_str_rels]. Qed.
+Print Assumptions C10_level_path_is_chain.
+
+(* all relationships subscriptable: the list form gives the keys and the string
+   form is the path printer of C09 on the same keys *)
+Theorem C10_level_path_is_render :
+  forall use_t2 l, all_items (rels use_t2 l) = true ->
+    path_list use_t2 l = map Some (keys_of_opts (path_list use_t2 l)) /\
+    path_str use_t2 l = Some (render (keys_of_opts (path_list use_t2 l))).
+Proof. exact path_is_render. Qed.
+Print Assumptions C10_level_path_is_render.
+
+(* a set item: the set's path, then the inaccessible relationship *)
+Theorem C10_level_path_set_item :
+  forall use_t2 l rs, rels use_t2 l = (rs ++ [RMember])%list -> all_items rs = true ->
+    path_list use_t2 l = (map rel_param rs ++ [None])%list /\
+    path_str use_t2 l = Some (root_str ++ flat_map param_repr rs ++ colon)%list.
+Proof. exact path_set_item. Qed.
+Print Assumptions C10_level_path_set_item.
+
+(* a line built by create_deeper: path() is the sequence of the parameters
+   handed to create_deeper - t1 side: param where the new t1 is present, else
+   the t2 parameter; t2 side: (param2 or param) where the new t2 is present,
+   else param - and the entry abstraction has exactly these key sequences *)
+Theorem C10_level_build_path :
+  forall use_t2 t1 t2 steps, forallb step_live steps = true ->
+    path_list use_t2 (build t1 t2 steps) = map (fun s => Some (step_key use_t2 s)) steps /\
+    path_str use_t2 (build t1 t2 steps) = Some (render (map (step_key use_t2) steps)).
+Proof. exact build_path. Qed.
+Print Assumptions C10_level_build_path.
+
+Theorem C10_level_build_entry :
+  forall k d t1 t2 steps, forallb step_live steps = true ->
+    ep1 (entry_of_level k d (build t1 t2 steps)) = map (step_key false) steps /\
+    ep2 (entry_of_level k d (build t1 t2 steps)) = map (step_key true) steps.
+Proof. exact build_entry. Qed.
+Print Assumptions C10_level_build_entry.
+
+(* the object of a DiffLevel is the sub-object of the root's object named by
+   its path, when every link leads from parent to child by its parameter (what
+   the chain walk observes on real lines) *)
+Theorem C10_level_object_is_resolve :
+  forall s l t, linked s (rev (ups l)) (cur l) -> nside s (hd (cur l) (rev (ups l))) = Some t ->
+    resolve t (keys_of_opts (path_list s l)) = nside s (cur l).
+Proof. exact line_resolve. Qed.
+Print Assumptions C10_level_object_is_resolve.
